@@ -111,6 +111,35 @@ fn sbix_from_font(font: &FontRef) -> Vec<Result<Value, String>> {
     to_json(guard(|| font.sbix().map(|t| -> wt::sbix::Sbix { t.to_owned_table() }).map_err(|e| e.to_string())))
 }
 
+fn sbix_glyph_data_from_font(font: &FontRef) -> Vec<Result<Value, String>> {
+    let mut out = vec![];
+    let Ok(sbix) = font.sbix() else { return out };
+    let Ok(maxp) = font.maxp() else { return out };
+    let n = maxp.num_glyphs() as u32;
+    for strike in sbix.strikes().iter().flatten().take(4) {
+        for gid in 0..n.min(64) {
+            let r = guard(|| match strike.glyph_data(font_types::GlyphId::new(gid)) {
+                Ok(Some(g)) => {
+                    let o: wt::sbix::GlyphData = g.to_owned_table();
+                    Ok(Some(o))
+                }
+                Ok(None) => Ok(None),
+                Err(e) => Err(e.to_string()),
+            });
+            match r {
+                Ok(Ok(Some(g))) => out.push(serde_json::to_value(&g).map_err(|e| e.to_string())),
+                Ok(Ok(None)) => {}
+                Ok(Err(e)) => out.push(Err(e)),
+                Err(p) => out.push(Err(format!("panic {}:{} {}", p.file, p.line, p.msg))),
+            }
+            if out.len() >= 24 {
+                return out;
+            }
+        }
+    }
+    out
+}
+
 fn ift_from_font(font: &FontRef) -> Vec<Result<Value, String>> {
     let mut out = vec![];
     for tag in [b"IFT ", b"IFTX"] {
@@ -210,8 +239,8 @@ pub fn registry() -> Vec<Entry> {
         from_font: None,
         variant: None,
         spec_len: None,
-        default_json: None,
-        from_bytes: None,
+        default_json: Some(default_of::<wt::sbix::GlyphData>),
+        from_bytes: Some(bytes_to::<wt::sbix::GlyphData>),
     });
     v.push(Entry {
         name: "ift::GlyphData",
@@ -221,8 +250,8 @@ pub fn registry() -> Vec<Entry> {
         from_font: None,
         variant: None,
         spec_len: None,
-        default_json: None,
-        from_bytes: None,
+        default_json: Some(default_of::<wt::ift::GlyphData>),
+        from_bytes: Some(bytes_to::<wt::ift::GlyphData>),
     });
     // ---- tables whose reader needs arguments: derived from the written value
     v.push(Entry {
@@ -306,6 +335,7 @@ pub fn registry() -> Vec<Entry> {
                 })
             }
             "Ift" => e.from_font = Some(ift_from_font),
+            "sbix::GlyphData" => e.from_font = Some(sbix_glyph_data_from_font),
             "Os2" => e.spec_len = Some(spec_len_os2),
             "Maxp" => e.spec_len = Some(spec_len_maxp),
             "Head" => e.spec_len = Some(|_| Some(54)),
